@@ -7,6 +7,7 @@
 //! `to_owned(read(dump(v))) == v` (modulo an allow-list of *explained*
 //! normalisations) and `dump(to_owned(read(dump(v)))) == dump(v)`.
 
+pub mod coherent;
 pub mod mutate;
 pub mod oracle;
 pub mod registry;
@@ -228,6 +229,7 @@ struct Stat {
 struct Run<'a> {
     entries: &'a [Entry],
     stats: Vec<Stat>,
+    opt: coherent::OptTrack,
 }
 
 // ---------------------------------------------------------------- explained normalisations
@@ -351,6 +353,26 @@ impl Run<'_> {
         let detail = |extra: Value| {
             json!({"type": e.name, "module": e.module, "origin": origin, "mutation": mutation, "value": trunc_json(j, 6000), "more": extra})
         };
+        // a hand-written constructor seed must reach the oracle: anything else
+        // is a slip in the constructor (or a finding reported below)
+        if origin.starts_with("ctor:") && mutation.starts_with("seed(") {
+            let st = match &out {
+                Outcome::Done(_) => None,
+                Outcome::DeserRejected => Some("deser-rejected".to_string()),
+                Outcome::ValidateRejected(w) => Some(format!("validate-rejected {}", w)),
+                Outcome::PackingFailed => Some("packing-failed".into()),
+                Outcome::NotApplicable => Some("not-applicable".into()),
+                Outcome::Panic { stage, .. } => Some(format!("panic in {}", stage)),
+                Outcome::ReadError { err, .. } => Some(format!("read error {}", err)),
+            };
+            match st {
+                None => ctx.count("ctor_seeds_round_tripped", 1),
+                Some(w) => {
+                    ctx.count("ctor_seeds_not_round_tripped", 1);
+                    ctx.label("ctor_seeds_not_round_tripped", &format!("{} {}: {}", e.name, origin, w));
+                }
+            }
+        }
         match out {
             Outcome::DeserRejected => self.stats[ti].deser_rej += 1,
             Outcome::ValidateRejected(why) => {
@@ -472,6 +494,18 @@ impl Run<'_> {
                         self.gap(ctx, &inc, det, &done.bytes);
                     }
                     return;
+                }
+                // which optional / version-gated fields did this consistent,
+                // strictly round-tripped value carry?
+                if node_count(&done.written) <= 4000 {
+                    let mut inc = vec![];
+                    rules::inconsistencies(&done.written, &mut inc);
+                    if inc.is_empty() {
+                        self.opt.observe(e.name, &done.written);
+                        if mutation.starts_with("lift") {
+                            ctx.count("lift_values_consistent_and_round_tripped", 1);
+                        }
+                    }
                 }
                 if self.stats[ti].ok_equal + self.stats[ti].ok_normalised == 1 {
                     ctx.sample_by_kind(
@@ -648,6 +682,19 @@ fn harvest<'a>(ctx: &mut Ctx, entries: &'a [Entry]) -> Harvest<'a> {
         cache: HashMap::new(),
         nodes_walked: 0,
     };
+    // hand-written coherent values of versions / formats the corpus lacks come
+    // first: they are always chosen as seeds and their parts fill the donor
+    // pools before the (capped) pools are full
+    for (name, origin, j) in coherent::ctor_seeds() {
+        let Some(ti) = entries.iter().position(|e| e.name == name) else {
+            ctx.label("ctor_seeds_not_round_tripped", &format!("{} {}: unknown type", name, origin));
+            continue;
+        };
+        ctx.count("ctor_seeds", 1);
+        let n = node_count(&j);
+        h.seeds[ti].add(&j, n, &origin, true);
+        h.walk(&j, "", &origin, true);
+    }
     let mut fonts = vf_core::corpus_fonts();
     fonts.extend(vf_core::klippa_fonts());
     let mut n_fonts = 0u64;
@@ -747,9 +794,16 @@ pub fn run(ctx: &mut Ctx, args: &Args) {
     let min_random = ctx.tier.pick(4usize, 16);
     let sweep_seeds = ctx.tier.pick(3usize, 10);
     let sweep_sites = ctx.tier.pick(100usize, 300);
+    let lift_seeds = ctx.tier.pick(6usize, 24);
 
     let pools = std::mem::take(&mut h.pools);
-    let mut run = Run { entries: &entries, stats: vec![Stat::default(); entries.len()] };
+    let mut run = Run { entries: &entries, stats: vec![Stat::default(); entries.len()], opt: coherent::OptTrack::default() };
+    let defaults: Vec<Option<Value>> = entries.iter().map(|e| e.default_json.map(|f| f())).collect();
+    for (ti, e) in entries.iter().enumerate() {
+        if let Some(d) = &defaults[ti] {
+            run.opt.declare(e.name, d);
+        }
+    }
 
     // work items: (type, seed), numbered deterministically
     let mut item = 0usize;
@@ -775,8 +829,10 @@ pub fn run(ctx: &mut Ctx, args: &Args) {
         let mut small_seen = 0usize;
         for (si, seed) in chosen.iter().enumerate() {
             let is_small = seed.nodes <= 400;
-            let sweep_this = is_small && small_seen < sweep_seeds;
-            if is_small {
+            let is_ctor = seed.origin.starts_with("ctor:");
+            // constructor seeds are always swept, on top of the first corpus seeds
+            let sweep_this = is_small && (is_ctor || small_seen < sweep_seeds);
+            if is_small && !is_ctor {
                 small_seen += 1;
             }
             let mine = ctx.mine(item);
@@ -794,6 +850,15 @@ pub fn run(ctx: &mut Ctx, args: &Args) {
             if NO_MUTATION.contains(&e.name) {
                 continue;
             }
+            // (a2) coherent lifts: optional fields on / off, arrays of different
+            // lengths, counts re-derived
+            if (si < lift_seeds || is_ctor) && seed.nodes <= 20_000 {
+                let dflt = defaults[ti].clone().unwrap_or(Value::Null);
+                for (j, what) in coherent::lift(e.name, &dflt, &seed.json, &pools, si) {
+                    ctx.count("lift_cases", 1);
+                    run.case(ctx, ti, &j, &seed.origin, &what);
+                }
+            }
             // (b) systematic sweeps
             if sweep_this {
                 run.sweep(ctx, ti, seed, &pools, sweep_sites);
@@ -804,7 +869,14 @@ pub fn run(ctx: &mut Ctx, args: &Args) {
             let m = Mutator { pools: &pools, root_type: e.name, max_nodes: 70_000 };
             for _ in 0..n {
                 let mut j = seed.json.clone();
-                let desc = m.mutate(&mut j, &mut rng);
+                let mut desc = m.mutate(&mut j, &mut rng);
+                // three times out of four the declared counts / selectors are
+                // re-derived, so that the mutant is consistent and is judged by
+                // the strict oracle; the rest keeps the validation-gap classes observed
+                if rng.chance(3, 4) && rules::repair(&mut j) > 0 {
+                    desc.push_str(" +repair");
+                    ctx.count("mutants_repaired", 1);
+                }
                 run.case(ctx, ti, &j, &seed.origin, &desc);
             }
         }
@@ -815,6 +887,17 @@ pub fn run(ctx: &mut Ctx, args: &Args) {
         special::run_special(ctx);
     }
 
+    // optional / version-gated fields: declared vs carried by a consistent,
+    // strictly round-tripped value (a field with only a "declared" line is a gap)
+    for (k, v) in run.opt.labels() {
+        ctx.label(&k, &v);
+    }
+    ctx.count("optional_field_observations", run.opt.values_walked);
+    if args.extra.iter().any(|a| a == "--print-gaps") {
+        for g in run.opt.never_exercised() {
+            println!("GAP {}", g);
+        }
+    }
     // per-type evidence
     let mut per_type: BTreeMap<String, Value> = BTreeMap::new();
     for (ti, e) in entries.iter().enumerate() {
@@ -863,7 +946,7 @@ fn replay(ctx: &mut Ctx, _args: &Args, rec: &Value, _bytes: Option<&[u8]>) {
         return;
     };
     let j = c["replay_json"].clone();
-    let mut run = Run { entries: &entries, stats: vec![Stat::default(); entries.len()] };
+    let mut run = Run { entries: &entries, stats: vec![Stat::default(); entries.len()], opt: coherent::OptTrack::default() };
     run.case(ctx, ti, &j, c["origin"].as_str().unwrap_or("replay"), c["mutation"].as_str().unwrap_or("replay"));
     // count as non-trivial twice so that a silent replay is reported as held
     ctx.nontrivial(1);
